@@ -147,7 +147,12 @@ impl HttpOperationSource {
 
 impl OperationSource for HttpOperationSource {
   fn ingest(&self, context: &mut RegistrationContext, filter: &OperationFilter) {
+    // `PathItem::methods` of the oas3 crate yields the TRACE operation twice: an operation is one (path, method) pair.
+    let mut seen = HashSet::new();
     for (path, method, operation) in self.spec.operations() {
+      if !seen.insert((path.clone(), method.clone())) {
+        continue;
+      }
       let base_id = compute_stable_id(method.as_str(), &path, operation.operation_id.as_deref());
 
       if !filter.accepts(&base_id) {
@@ -184,7 +189,11 @@ impl WebhookOperationSource {
 impl OperationSource for WebhookOperationSource {
   fn ingest(&self, context: &mut RegistrationContext, filter: &OperationFilter) {
     for (name, path_item) in &self.spec.webhooks {
+      let mut seen = HashSet::new();
       for (method, operation) in path_item.methods() {
+        if !seen.insert(method.clone()) {
+          continue;
+        }
         let display_path = format!("webhooks/{name}");
         let base_id = compute_stable_id(method.as_str(), &display_path, operation.operation_id.as_deref());
 
